@@ -30,9 +30,9 @@ MUTANTS = [
     m("c11-softabs-logdet-times-eigval", "R2", "        grad_eigval = self.grad_softabs(self.unreg_eigval) / self.eigval", "        grad_eigval = self.grad_softabs(self.unreg_eigval) * self.eigval"),
     m("c11-softabs-logdet-grad-at-regularised", "R1", "        grad_eigval = self.grad_softabs(self.unreg_eigval) / self.eigval", "        grad_eigval = self.grad_softabs(self.eigval) / self.eigval"),
     m("c11-softabs-den-regularised", "R1", "        den_j_mtx = self.unreg_eigval[:, None] - self.unreg_eigval[None, :]", "        den_j_mtx = self.eigval[:, None] - self.eigval[None, :]"),
-    m("c11-softabs-den-diagonal-unfilled", "R1", "        np.fill_diagonal(den_j_mtx, 1)\n", ""),
+    m("c11-softabs-coincident-uses-divided-difference", "R6", "                self.grad_softabs(mid_j_mtx),\n                num_j_mtx / den_j_mtx,", "                num_j_mtx / den_j_mtx,\n                num_j_mtx / den_j_mtx,"),
     m("c11-softabs-evct-unscaled", "R2", "        e_vct = (self.eigvec.T @ vector) / self.eigval", "        e_vct = self.eigvec.T @ vector"),
-    m("c11-softabs-num-diag-value-not-derivative", "R1", "        num_j_mtx += np.diag(self.grad_softabs(self.unreg_eigval))\n", "        num_j_mtx += np.diag(self.softabs(self.unreg_eigval))\n"),
+    m("c11-softabs-limit-value-not-derivative", "R1", "                self.grad_softabs(mid_j_mtx),\n", "                self.softabs(mid_j_mtx),\n"),
     m("c11-block-logdet-skips-last", "R3", "            return tuple(block.grad_log_abs_det for block in self._blocks)", "            return tuple(block.grad_log_abs_det for block in self._blocks[:-1])"),
     m("c11-block-quadform-whole-vector", "R3", "                block.grad_quadratic_form_inv(vector_part)\n", "                block.grad_quadratic_form_inv(vector)\n"),
     m("c11-block-quadform-reversed-parts", "R3", "                    self._split(vector, axis=0),\n                    strict=True,", "                    reversed(self._split(vector, axis=0)),\n                    strict=True,"),
@@ -46,4 +46,6 @@ MUTANTS = [
     m("c11-reciprocal-int-unsafe", "R5", "    def grad_log_abs_det(self) -> NDArray:\n        return 1.0 / self.diagonal", "    def grad_log_abs_det(self) -> NDArray:\n        return np.reciprocal(self.diagonal)", key="int-unsafe"),
     m("c11-twin-reciprocal-float", None, "    def grad_log_abs_det(self) -> NDArray:\n        return 1.0 / self.diagonal", "    def grad_log_abs_det(self) -> NDArray:\n        return np.reciprocal(self.diagonal.astype(np.float64))", twin=True),
     m("c11-twin-divide", None, "    def grad_log_abs_det(self) -> NDArray:\n        return 1.0 / self.diagonal", "    def grad_log_abs_det(self) -> NDArray:\n        return np.divide(1.0, self.diagonal)", twin=True),
+    m("c11-undo-F20", "R6", "        with np.errstate(divide=\"ignore\", invalid=\"ignore\"):\n            j_mtx = np.where(\n                is_coincident,\n                self.grad_softabs(mid_j_mtx),\n                num_j_mtx / den_j_mtx,\n            )\n", "        num_j_mtx += np.diag(self.grad_softabs(self.unreg_eigval))\n        np.fill_diagonal(den_j_mtx, 1)\n        j_mtx = num_j_mtx / den_j_mtx\n", key="divided-difference"),
+    m("c11-twin-coincident-masked-store", None, "        with np.errstate(divide=\"ignore\", invalid=\"ignore\"):\n            j_mtx = np.where(\n                is_coincident,\n                self.grad_softabs(mid_j_mtx),\n                num_j_mtx / den_j_mtx,\n            )\n", "        with np.errstate(divide=\"ignore\", invalid=\"ignore\"):\n            quotient = num_j_mtx / den_j_mtx\n        j_mtx = np.where(is_coincident, self.grad_softabs(mid_j_mtx), quotient)\n", twin=True),
 ]
